@@ -900,6 +900,105 @@ def rule_r9(prog, res):
     res.floor('R9', 'None tests in the detail converter', k, 1)
 
 
+# ------------------------------------------------------------------ R10
+def rule_r10(prog, res):
+    res.rule('R10', 'the positional fault form has the same arity on every '
+             'path; SOAP 1.2 sub-codes are linked into one chain')
+    from ..flow import SeqFlow, RETURN
+    fc = prog.cls('spyne.model.fault:Fault')
+    f = fc.methods.get('to_list')
+    if f is None:
+        raise AnalysisError('Fault.to_list', 'not found')
+
+    def on_stmt(st):
+        if isinstance(st, ast.Assign) and isinstance(
+                st.value, (ast.List, ast.Tuple)) and any(
+                isinstance(t, ast.Name) for t in st.targets):
+            return ['N%d' % len(st.value.elts)]
+        if isinstance(st, ast.Return) and isinstance(
+                st.value, (ast.List, ast.Tuple)):
+            return ['N%d' % len(st.value.elts)]
+        return None
+
+    def classify(call):
+        if call_name(call) == 'append' and isinstance(
+                call.func, ast.Attribute) and isinstance(
+                call.func.value, ast.Name):
+            return ('+1',), False
+        if call_name(call) in ('extend', 'insert', 'pop', 'remove'):
+            return ('?',), False
+        return (), False
+    seqs = SeqFlow(classify, on_stmt=on_stmt).run(f.node)
+    sizes = set()
+    for q in seqs.get(RETURN, set()):
+        if '?' in q:
+            sizes.add('?')
+            continue
+        tot = 0
+        for e in q:
+            if e.startswith('N'):
+                tot = int(e[1:])
+            elif e == '+1':
+                tot += 1
+        sizes.add(tot)
+    ok = len(sizes) == 1 and '?' not in sizes
+    res.ob('R10', f.where, 'Fault.to_list: list length on the returning '
+           'paths: %s' % sorted(map(str, sizes)), 'ok' if ok else 'VIOLATED',
+           nontrivial=True)
+    res.floor('R10', 'returning paths of Fault.to_list', len(seqs.get(
+        RETURN, ())), 2)
+    if not ok:
+        res.finding('R10', 'Fault.to_list|arity|%s' % sorted(map(str, sizes)),
+                    f.where, 'the positional fault document has %s items '
+                    'depending on the path: when an optional slot is left '
+                    'out the following slots shift, so a reader that takes '
+                    '[code, string, actor, detail] by position finds the '
+                    'detail in the actor slot and no detail' % sorted(
+                        map(str, sizes)))
+    # SOAP 1.2 sub-code chain
+    c12_ = prog.cls('spyne.protocol.soap.soap12:Soap12', required=False)
+    g = c12_.methods.get('_fault_to_parent_impl') if c12_ else None
+    if g is None:
+        return
+    loops = [l_ for l_ in walk_no_defs(g.node) if isinstance(l_, ast.For) and
+             'faultcodes' in unparse(l_.iter)]
+    res.floor('R10', 'sub-code loops in Soap12._fault_to_parent_impl',
+              len(loops), 1)
+    for lp in loops:
+        made = [c for c in calls_in(lp) if call_name(c) == 'generate_subcode']
+        linked = False
+        # (a) the node built so far is passed as the child of the next one
+        carried = {t.id for a in walk_no_defs(lp) if isinstance(a, ast.Assign)
+                   and isinstance(a.value, ast.Call) and
+                   call_name(a.value) == 'generate_subcode'
+                   for t in a.targets if isinstance(t, ast.Name)}
+        for c in made:
+            if len(c.args) >= 2 and isinstance(c.args[1], ast.Name) and \
+                    c.args[1].id in carried:
+                linked = True
+        # (b) or the anchor is re-bound to the node just created
+        for a in walk_no_defs(lp):
+            if isinstance(a, ast.Assign) and isinstance(a.value, ast.Name) \
+                    and a.value.id in carried and any(
+                    isinstance(t, ast.Name) for t in a.targets):
+                anchors = {t.id for t in a.targets if isinstance(t, ast.Name)}
+                if any(call_name(c) == 'append' and isinstance(
+                        c.func.value, ast.Name) and c.func.value.id in anchors
+                        for c in calls_in(lp)):
+                    linked = True
+        where = '%s:%d' % (g.module.relpath, lp.lineno)
+        res.ob('R10', where, 'Soap12 sub-codes: each new Subcode %s' % (
+            'receives/joins the chain built so far' if linked else
+            'is attached to a fixed anchor'), 'ok' if linked else 'VIOLATED')
+        if not linked:
+            res.finding('R10', 'Soap12._fault_to_parent_impl|subcode-chain',
+                        where, 'the loop over the dotted fault code creates '
+                        'Subcode elements without linking each to the one '
+                        'created before: from the third sub-code on they '
+                        'become siblings, so a client following the nested '
+                        'Code/Subcode chain reads a truncated fault code')
+
+
 def run(prog, res, tier):
     res.run_rule(rule_r8, prog, res)
     res.run_rule(rule_r1, prog, res, tier)
@@ -909,6 +1008,7 @@ def run(prog, res, tier):
     res.run_rule(rule_r5, prog, res)
     res.run_rule(rule_r6, prog, res)
     res.run_rule(rule_r9, prog, res)
+    res.run_rule(rule_r10, prog, res)
 
 
 _A = 'spyne/application.py'
@@ -919,6 +1019,18 @@ _H = 'spyne/protocol/dictdoc/hier.py'
 _F = 'spyne/model/fault.py'
 
 MUTANTS = [
+    Mutant('to-list-skips-empty-actor', 'R10', 'fire', 'spyne/model/fault.py',
+           in_func('Fault.to_list',
+                   "        else:\n            retval.append(\"\")\n\n"
+                   "        if value.detail is not None:",
+                   "\n        if value.detail is not None:"), 'arity'),
+    Mutant('subcodes-attached-to-fixed-anchor', 'R10', 'fire',
+           'spyne/protocol/soap/soap12.py',
+           in_func('Soap12._fault_to_parent_impl',
+                   "child_subcode = self.generate_subcode(value, "
+                   "child_subcode)",
+                   "child_subcode = self.generate_subcode(value)"),
+           'subcode-chain'),
     Mutant('status-from-app-protocol', 'R5', 'fire', _W,
            in_func('WsgiApplication.handle_error',
                    "p_ctx.out_protocol.fault_to_http_response_code(error)",
